@@ -108,18 +108,100 @@ def table_of(db, module=None):
     return {k: describe_symbol(v) for k, v in db.items(module)}
 
 
+REV_A = '''class Cart:
+	n: int
+
+	def __init__(self, n: int) -> None:
+		self.n = n
+
+	def total(self) -> int:
+		return self.n
+
+class Price:
+	v: float
+
+	def __init__(self, v: float) -> None:
+		self.v = v
+
+	def get(self) -> float:
+		return self.v
+
+def make(n: int) -> Cart:
+	return Cart(n)
+'''
+# same names, other positions and other member types
+REV_B = '''class Price:
+	v: str
+
+	def __init__(self, v: str) -> None:
+		self.v = v
+
+	def get(self) -> str:
+		return self.v
+
+class Cart:
+	n: int
+	p: Price
+
+	def __init__(self, n: int) -> None:
+		self.n = n
+		self.p = Price('x')
+
+	def total(self) -> str:
+		return self.p.get()
+
+def make(n: int) -> Price:
+	return Price('y')
+'''
+REV_C = '''def make(n: int) -> int:
+	return n
+
+class Cart:
+	n: list[int]
+
+	def __init__(self, n: int) -> None:
+		self.n = [n]
+
+	def total(self) -> list[int]:
+		return self.n
+'''
+REVISIONS = [{'rev_mod': REV_A}, {'rev_mod': REV_B}, {'rev_mod': REV_C}, {'rev_mod': REV_A}]
+
+
 def judge_set(task):
+    """One module set; a set named 'gen-revisions...' is a history: the same session sees successive revisions of a
+    module (sources replaced, module unloaded and loaded again) and round-trips every one of them."""
+    name, sources, disk_modules = task
+    if not name.startswith('gen-revisions'):
+        return judge_revision(None, name, sources, disk_modules)
+    from mc.tranp.session import Session
+    order = [int(c) for c in name.split(':')[1]]
+    s = Session(dict(REVISIONS[order[0]]))
+    viol, stats = [], {'modules': 0, 'symbols': 0}
+    for step, k in enumerate(order):
+        if step:
+            for m, src in REVISIONS[k].items():
+                s.sources[m] = src
+                s.modules.unload(m)
+        v, st = judge_revision(s, f'{name} step {step} (revision {k})', dict(REVISIONS[k]), [], only=list(REVISIONS[k]))
+        viol += [(sig, what, dict(rep, set=name)) for sig, what, rep in v]
+        stats = {a: stats[a] + st[a] for a in stats}
+        if v:
+            break
+    return viol, stats
+
+
+def judge_revision(session, name, sources, disk_modules, only=None):
     from mc.tranp.session import Session
     from rogw.tranp.errors import Errors
     from rogw.tranp.semantics.reflection.serialization import IReflectionSerializer
-    name, sources, disk_modules = task
     viol = []
     stats = {'modules': 0, 'symbols': 0}
 
     def add(sig, what, mod):
         viol.append((sig, f'{name}/{mod}: {what}', {'set': name, 'sources': sources, 'disk_modules': disk_modules, 'module': mod}))
     try:
-        s = Session(dict(sources))
+        s = session if session is not None else Session(dict(sources))
         for m in list(sources) + list(disk_modules):
             s.load(m)
     except Errors.Error as e:
@@ -127,6 +209,8 @@ def judge_set(task):
     db = s.db
     ser = s.get(IReflectionSerializer)
     loaded = [m.path for m in s.modules.loaded()]
+    if only:
+        loaded = [m for m in loaded if m in only]
     for m in loaded:
         before = table_of(db, m)
         if not before:
@@ -185,6 +269,10 @@ def judge_set(task):
 
 def run(ctx):
     tasks = [(n, srcs, []) for n, srcs in module_sets(ctx.quick)]
+    import itertools
+    # histories: every sequence of 3 revisions out of 4 (repetition allowed between non-adjacent steps)
+    seqs = [q for q in itertools.product(range(len(REVISIONS)), repeat=3) if q[0] != q[1] and q[1] != q[2]]
+    tasks += [(f'gen-revisions:{"".join(map(str, q))}', {}, []) for q in seqs]
     reals = [m for m, fp, _ in corpus.real_modules() if 'fixture' in m or m.startswith('example')]
     if ctx.quick:
         reals = [m for m in reals if m.endswith(('fixture_db', 'fixture_reflections', 'example'))]
@@ -202,7 +290,7 @@ def run(ctx):
     return {
         'evaluations': syms,
         'distinct_nontrivial': syms,
-        'rule': f'module sets {[t[0] for t in tasks]}; every loaded module of every set (project modules and the library modules they pull in) exported, unloaded, re-imported, imported again; every symbol compared (deep description, class, types, decl, node, via, attrs); generics nested to depth {3 if ctx.quick else 5}, a 13-parameter signature (two-digit attribute indices), nested classes, unions; symbols are distinct keys',
+        'rule': f'module sets {[t[0] for t in tasks]}; every loaded module of every set (project modules and the library modules they pull in) exported, unloaded, re-imported, imported again; every symbol compared (deep description, class, types, decl, node, via, attrs); generics nested to depth {3 if ctx.quick else 5}, a 13-parameter signature (two-digit attribute indices), nested classes, unions; symbols are distinct keys; revision histories: one session sees 3 successive revisions of a module (all sequences over 4 revisions with distinct neighbours; same names at other positions with other member types), each revision exported, unloaded, re-imported and compared',
         'samples': [generic_module(3)[:300], tasks[-1][0]],
         'modules_round_tripped': mods,
         'exhaustive': True,
